@@ -1061,6 +1061,10 @@ class BuiltinsMixin(object):
             return [(path, App('call', fv, Tup(args)))]
         if isinstance(fv, FRef):
             return self.call_function(fv, args, kw, path, node)
+        if isinstance(fv, ERef) and fv.name == 'collections.deque' and \
+                len(args) <= 1 and not kw:
+            # a double-ended queue is a list whose order is not modelled
+            return self._coll_from('list', args, path, node)
         if isinstance(fv, Bound):
             return self.call_function(fv.f, [fv.recv] + list(args), kw, path,
                                       node)
@@ -1658,6 +1662,8 @@ class BuiltinsMixin(object):
         return [(path, App('mcall', recv, Const(name), Tup(args)))]
 
     def container_method(self, recv, name, args, path, node):
+        name = {'popleft': 'pop', 'appendleft': 'append',
+                'extendleft': 'extend'}.get(name, name)
         h = path.heap[recv.oid]
         gens = path.loops[h.loops_len:]
         conds = tuple(path.pc[h.pc_len:]) if gens else ()
@@ -1686,6 +1692,21 @@ class BuiltinsMixin(object):
         if name == 'update' and kind == 'dict' and len(args) == 1:
             add(self.snapshot(args[0], path), spread=True)
             return [(path, Const(None))]
+        if name == 'setdefault' and kind == 'dict' and not gens and \
+                len(args) in (1, 2):
+            # d.setdefault(k, x)  ==  d[k] if k in d else (d[k] := x)
+            default = args[1] if len(args) == 2 else Const(None)
+            fk = self.fork_on_key(recv, args[0], path)
+            if fk is not None:
+                out = []
+                for (q, i) in fk:
+                    hq = q.heap[recv.oid]
+                    if i is None:
+                        hq.parts.append(Part('elem', default, key=args[0]))
+                        out.append((q, default))
+                    else:
+                        out.append((q, hq.parts[i].val))
+                return out
         if name == 'pop' and kind == 'list':
             if h.concrete() and not gens and h.parts and (
                     not args or (isinstance(args[0], Const))):
